@@ -138,7 +138,7 @@ REGISTRY = {
         "assumptions": COMMON_ASSUMPTIONS,
     },
     "C17": {
-        "rules": [exponent.rule_linop_dtype, linalg.rule_backend_use_or_reject, linalg.rule_dense_table, linalg.rule_perm_provenance, linalg.rule_none_vs_zero],
+        "rules": [exponent.rule_linop_dtype, linalg.rule_backend_use_or_reject, linalg.rule_dense_table, linalg.rule_perm_provenance, linalg.rule_none_vs_zero, linalg.rule_return_arity],
         "explanation": (
             "static (registry evaluation + use-or-reject): decides that every registered eigen / singular-value backend accepts "
             "every setting its dispatcher builds and reads each selection-bearing option it accepts, that the dispatcher builds "
@@ -189,7 +189,7 @@ REGISTRY = {
     },
     "C09": {
         "rules": [
-            registries.rule_compress_registry_1d, registries.rule_full_span,
+            registries.rule_compress_registry_1d, registries.rule_full_span, registries.rule_centre_shift,
             P(dmrg.rule_sweep_memory, sites=[("quimb.tensor.tn1d.compress", "tensor_network_1d_compress_fit", ("f_sweep",), "prepare")], rule="sweep-memory[fit]"),
             P(optflow.rule_option_delivery, opts=("max_bond", "cutoff"), modules=("quimb.tensor.tn1d",), rule="cap-delivery[1d]", floor=40),
             P(registries.rule_mode_total, specs=[
@@ -210,7 +210,7 @@ REGISTRY = {
     },
     "C12": {
         "rules": [
-            registries.rule_ag_compress_registry, exponent.rule_view_accrual, capguard.rule_cap_guard,
+            registries.rule_ag_compress_registry, exponent.rule_view_accrual, capguard.rule_cap_guard, envs.rule_private_boundary,
             P(optflow.rule_option_delivery, opts=("max_bond", "cutoff"),
               modules=("quimb.tensor.tn2d", "quimb.tensor.tn3d", "quimb.tensor.tnag.compress", "quimb.tensor.tensor_core"),
               rule="cap-delivery[boundary]", floor=80),
@@ -230,7 +230,7 @@ REGISTRY = {
         "assumptions": COMMON_ASSUMPTIONS,
     },
     "C04": {
-        "rules": [iso.rule_iso_invalidate, iso.rule_iso_claim, iso.rule_exp_compensate, iso.rule_strip_member, exponent.rule_view_accrual,
+        "rules": [order.rule_gauge_order_binding, iso.rule_iso_invalidate, iso.rule_iso_claim, iso.rule_exp_compensate, iso.rule_strip_member, exponent.rule_view_accrual,
                   functools.partial(inplace.rule_inplace_effect, family=iso.rewrite_family, rule="inplace-effect[rewrites]", floor=40, controls=0)],
         "explanation": (
             "static: decides (a) the isometry flag left_inds as a typestate — dropped by every data write, low-level "
